@@ -419,6 +419,7 @@ def Expr.lineFreeE : Expr → Prop
   | .app n x _ fa b a => n.lineFreeE ∧ x.lineFreeE ∧ lineFreeC fa ∧ lineFree b ∧ lineFree a
   | .wth env body _ _ _ b a => env.lineFreeE ∧ body.lineFreeE ∧ lineFree b ∧ lineFree a
   | .asrt c bd _ _ b a => c.lineFreeE ∧ bd.lineFreeE ∧ lineFree b ∧ lineFree a
+  | .sel e _ _ _ b a => e.lineFreeE ∧ lineFree b ∧ lineFree a
 def allLineFree : List Expr → Prop
   | [] => True
   | e :: rest => e.lineFreeE ∧ allLineFree rest
@@ -478,6 +479,7 @@ theorem lineFreeE_after {e : Expr} (h : e.lineFreeE) : lineFree e.after := by
   | app n x g fa b a => exact h.2.2.2.2
   | wth e bd c g s b a => exact h.2.2.2
   | asrt c bd x y b a => exact h.2.2.2
+  | sel e ats g ab b a => exact h.2.2
 
 mutual
 theorem lexOut_noLine : (e : Expr) → e.ok → e.lineFreeE → ∀ na, noLineL (e.lexOut na)
@@ -526,6 +528,22 @@ theorem lexOut_noLine : (e : Expr) → e.ok → e.lineFreeE → ∀ na, noLineL 
     exact noLineL_append.mpr ⟨noLineL_append.mpr ⟨noLineL_append.mpr ⟨noLineL_append.mpr ⟨noLineL_append.mpr
       ⟨noLineL_cm hok.2.2.2.2.1 hf.2.2.1, noLineL_tok _⟩, lexOut_noLine cond hok.1 hf.1 false⟩, noLineL_tok _⟩,
       noLineL_ite _ noLineL_nil (noLineL_cm hok.2.2.2.2.2 hf.2.2.2)⟩, lexOut_noLine body hok.2.1 hf.2.1 false⟩
+  | .sel e attrs g ab b a, hok, hf, na => by
+    simp only [Expr.lexOut]
+    refine noLineL_append.mpr ⟨noLineL_append.mpr ⟨noLineL_append.mpr
+      ⟨noLineL_cm hok.2.2.2.2.1 hf.2.1, lexOut_noLine e hok.1 hf.1 false⟩, ?_⟩,
+      noLineL_ite _ noLineL_nil (noLineL_cm hok.2.2.2.2.2 hf.2.2)⟩
+    intro s hs
+    exfalso
+    clear hok hf
+    induction attrs with
+    | nil => cases hs
+    | cons x r ih =>
+      simp only [attrLex, List.mem_cons] at hs
+      rcases hs with h | h | h
+      · cases h
+      · cases h
+      · exact ih h
 theorem lexOutAll_noLine : (es : List Expr) → allOk es → allLineFree es → noLineL (lexOutAll es)
   | [], _, _ => noLineL_nil
   | e :: rest, hok, hf => by
@@ -583,6 +601,8 @@ def Expr.mlSafe : Expr → Prop
   -- condition and body of an `assert` carry no trailing trivia of their own
   | .asrt cond body _ _ _ _ =>
     cond.mlSafe ∧ body.mlSafe ∧ cond.notBinding = true ∧ body.notBinding = true ∧ cond.after = [] ∧ body.after = []
+  -- the expression a select is applied to carries no trailing trivia of its own
+  | .sel e _ _ _ _ _ => e.mlSafe ∧ e.notBinding = true ∧ e.after = []
 def allMlSafe : List Expr → Prop
   | [] => True
   | e :: rest => e.mlSafe ∧ allMlSafe rest
@@ -762,6 +782,7 @@ theorem rebuildAP_after_nil {e : Expr} (h : e.after = []) (i : Nat) (b : Bool) :
   | app n x g fa bf af => simp only [Expr.after] at h; subst h; simp [Expr.rebuildAP]
   | wth e bd c g s bf af => simp only [Expr.after] at h; subst h; simp [Expr.rebuildAP]
   | asrt c bd x y bf af => simp only [Expr.after] at h; subst h; simp [Expr.rebuildAP]
+  | sel e ats g ab bf af => simp only [Expr.after] at h; subst h; simp [Expr.rebuildAP]
 
 /-- the argument of a call / the body of a `with` is rendered last and carries no trailing trivia -/
 def Expr.tailOk : Expr → Prop
@@ -779,6 +800,15 @@ theorem mlSafe_tailOk : (e : Expr) → e.mlSafe → e.tailOk
   | .app _ x _ _ _ _, h => ⟨h.2.2.2.2.2.1, h.2.2.2.1, mlSafe_tailOk x h.2.1⟩
   | .wth _ x _ _ _ _ _, h => ⟨h.2.2.2.2.2, h.2.2.2.1, mlSafe_tailOk x h.2.1⟩
   | .asrt _ x _ _ _ _, h => ⟨h.2.2.2.2.2, h.2.2.2.1, mlSafe_tailOk x h.2.1⟩
+  | .sel .., _ => trivial
+
+theorem attrP_endsTok : ∀ (attrs : List Text), attrs ≠ [] → (∀ x ∈ attrs, solidT x) →
+    ∃ t, EndsTok (attrP attrs) t ∧ solidT t
+  | [], h, _ => absurd rfl h
+  | [a], _, hs => ⟨a, endsTok_single a, hs a (List.mem_cons_self ..)⟩
+  | a :: b :: rest, _, hs => by
+    obtain ⟨t, ht, hst⟩ := attrP_endsTok (b :: rest) (by simp) (fun x hx => hs x (List.mem_cons_of_mem _ hx))
+    exact ⟨t, endsTok_cons _ (endsTok_cons _ ht), hst⟩
 
 /-- an `assert` is rendered with its body last, whatever its own trailing trivia -/
 theorem asrt_endsTok_of {c bd : Expr} {x y bf af : List Trivia} {i : Nat} {t : Text}
@@ -854,6 +884,12 @@ theorem noAfter_ends_tok : (e : Expr) → e.ok → e.tailOk → e.notBinding = t
     rw [← rebuildAP_after_nil hxa] at ht
     exact ⟨t, asrt_endsTok_of ht true b, hst⟩
 
+  | .sel e attrs g ab bf af, hok, _, _, i, b => by
+    obtain ⟨t, ht, hst⟩ := attrP_endsTok attrs hok.2.1 hok.2.2.1
+    refine ⟨t, ?_, hst⟩
+    simp only [Expr.rebuildAP, addTriviaP, if_true, trailP_nil]
+    exact endsTok_append_nil (endsTok_append _ (endsTok_append _ ht))
+
 /-- the trailing trivia are rendered last -/
 theorem rebuildAP_split {e : Expr} (hna : e.isAsrtE = false) (hnb : e.notBinding = true) (i : Nat) (b : Bool) :
     e.rebuildAP false i b = e.rebuildAP true i b ++ trailP e.after i := by
@@ -875,6 +911,7 @@ theorem rebuildAP_split {e : Expr} (hna : e.isAsrtE = false) (hnb : e.notBinding
   | paren v lg tg lb tb bf af => simp [Expr.rebuildAP, addTriviaP, trailP_nil, Expr.after]
   | app n x g fa bf af => simp [Expr.rebuildAP, addTriviaP, trailP_nil, Expr.after]
   | wth e bd c g s bf af => simp [Expr.rebuildAP, addTriviaP, trailP_nil, Expr.after]
+  | sel e ats g ab bf af => simp [Expr.rebuildAP, addTriviaP, trailP_nil, Expr.after]
   | asrt c bd x y bf af => cases hna
 
 /-- an expression without trailing trivia ends closed -/
@@ -911,6 +948,7 @@ theorem rebuildAP_open {e : Expr} (hok : e.ok) (hml : e.mlSafe) (hnb : e.notBind
     | paren => cases hA
     | app => cases hA
     | wth => cases hA
+    | sel => cases hA
 
 /-- the comments after the function: safe after a closed state; open afterwards only if the last one
     is a line comment -/
@@ -1234,6 +1272,27 @@ theorem rebuildAP_safe : (e : Expr) → e.ok → e.mlSafe → ∀ (na : Bool) (i
       intro p hp
       exact hsolid p (List.mem_append_left _ (List.mem_append_left _ hp))
     exact asrt_join_safe hline hsl (rebuildAP_safe body hbd hbm false i false)
+  | .sel expr attrs g ab before after, hok, hml, na, i, b => by
+    obtain ⟨he, hne, hat, _, hb, ha⟩ := hok
+    obtain ⟨hem, henb, hea⟩ := hml
+    have ht := (trailP_safe (ite_nil_ok na ha) i).1
+    have hattr : ∀ (rest : List FP), safeGo false (attrP attrs ++ rest) = safeGo false rest := by
+      intro rest
+      clear hne hat
+      induction attrs with
+      | nil => rfl
+      | cons x r ih =>
+        cases r with
+        | nil => simp only [attrP, List.cons_append, List.nil_append, (tok_then _ _).1]
+        | cons y r' =>
+          simp only [attrP, List.cons_append, (tok_then _ _).1]
+          exact ih
+    simp only [Expr.rebuildAP, addTriviaP, List.append_assoc]
+    rw [(lines_then i hb _).1, (indentP_scan i b _).1]
+    rw [safeGo_append, rebuildAP_safe expr he hem false i true, closed_of_after_nil he hem henb hea i true, Bool.true_and]
+    simp only [List.cons_append, List.nil_append, (tok_then _ _).1, (ws_then _ _).1]
+    rw [hattr]
+    exact ht
 theorem rebuildAllP_safe : (es : List Expr) → allOk es → allMlSafe es → ∀ (i : Nat) (b : Bool),
     ∀ x ∈ rebuildAllP es i b, safeGo false x = true
   | [], _, _, _, _, x, hx => by cases hx
@@ -1251,6 +1310,7 @@ theorem previewP_safe : (e : Expr) → e.ok → e.mlSafe → ∀ (i : Nat) (p : 
   | .app .., _, _, i, p, h => by simp [Expr.previewP] at h
   | .wth .., _, _, i, p, h => by simp [Expr.previewP] at h
   | .asrt .., _, _, i, p, h => by simp [Expr.previewP] at h
+  | .sel .., _, _, i, p, h => by simp [Expr.previewP] at h
   | .list value ml inner before after, hok, hml, i, p, h => by
     obtain ⟨hv, hin, hb, ha⟩ := hok
     refine ⟨[']'], ?_, solidT_lit ']' (by decide), ?_⟩
@@ -1390,6 +1450,7 @@ def Cst.noLineC : Cst → Bool
   | .paren its _ => its.noLineI
   | .app f cs _ a => f.noLineC && gcNoLine cs && a.noLineC
   | .kw _ c1 _ h c2 _ c3 _ b => gcNoLine c1 && h.noLineC && gcNoLine c2 && gcNoLine c3 && b.noLineC
+  | .sel e c1 _ _ _ => e.noLineC && gcNoLine c1
 def Items.noLineI : Items → Bool
   | .nil => true
   | .cmt _ t rest => !isLineCmt t && rest.noLineI
@@ -1487,6 +1548,14 @@ theorem cst_noLine_of_noNL : (c : Cst) → c.wf = true → containsNL c.flatten 
     have a3 := containsNL_append_false (containsNL_append_false (containsNL_append_false a2.2).2).2
     simp only [Cst.noLineC, gcNoLine, List.all_nil, Bool.true_and, Bool.and_true, Bool.and_eq_true]
     exact ⟨cst_noLine_of_noNL h hhw a2.1, cst_noLine_of_noNL b hbw a3.2⟩
+  | .sel e c1 g1 gd attrs, hwf, hn => by
+    simp only [Cst.wf, Bool.and_eq_true, List.isEmpty_iff] at hwf
+    obtain ⟨⟨⟨⟨⟨hew, hc1⟩, _⟩, _⟩, _⟩, _⟩ := hwf
+    subst hc1
+    have h1 : containsNL (e.flatten ++ (g1 ++ (['.'] ++ (gd ++ attrText attrs)))) = false := by
+      simpa [Cst.flatten, flattenGC, List.append_assoc] using hn
+    simp only [Cst.noLineC, gcNoLine, List.all_nil, Bool.and_true]
+    exact cst_noLine_of_noNL e hew (containsNL_append_false h1).1
 theorem items_noLine_of_noNL : (its : Items) → ∀ (m : Mode) (cg : Text), its.wf m cg = true → m ≠ .file →
     containsNL (its.flatten ++ cg) = false → its.noLineI = true
   | .nil, _, _, _, _, _ => rfl
@@ -1578,6 +1647,7 @@ theorem lineFreeE_setBefore {e : Expr} (h : e.lineFreeE) {b : List Trivia} (hb :
   | app n x g fa b' a => exact ⟨h.1, h.2.1, h.2.2.1, hb, h.2.2.2.2⟩
   | wth e bd c g s b' a => exact ⟨h.1, h.2.1, hb, h.2.2.2⟩
   | asrt c bd x y b' a => exact ⟨h.1, h.2.1, hb, h.2.2.2⟩
+  | sel e ats g ab b' a => exact ⟨h.1, hb, h.2.2⟩
 
 theorem lineFreeE_addAfter {e : Expr} (h : e.lineFreeE) {a : List Trivia} (ha : lineFree a) : (e.addAfter a).lineFreeE := by
   have haa := lineFree_append.mpr ⟨lineFreeE_after h, ha⟩
@@ -1590,6 +1660,7 @@ theorem lineFreeE_addAfter {e : Expr} (h : e.lineFreeE) {a : List Trivia} (ha : 
   | app n x g fa b a' => exact ⟨h.1, h.2.1, h.2.2.1, h.2.2.2.1, haa⟩
   | wth e bd c g s b a' => exact ⟨h.1, h.2.1, h.2.2.1, haa⟩
   | asrt c bd x y b a' => exact ⟨h.1, h.2.1, h.2.2.1, haa⟩
+  | sel e ats g ab b a' => exact ⟨h.1, h.2.1, haa⟩
 
 theorem mlSafe_setBefore {e : Expr} (h : e.mlSafe) (b : List Trivia) : (e.setBefore b).mlSafe := by
   cases e <;> exact h
@@ -1671,6 +1742,7 @@ theorem lineFreeE_before {e : Expr} (h : e.lineFreeE) : lineFree e.before := by
   | app n x g fa b a => exact h.2.2.2.1
   | wth e bd c g s b a => exact h.2.2.1
   | asrt c bd x y b a => exact h.2.2.1
+  | sel e ats g ab b a => exact h.2.1
 
 theorem binding_inv {n : Text} {c1 c2 c3 : GC} {g1 g2 g3 : Text} {ve b : Expr} {before : List Trivia}
     (h1 : gcOk c1 g1 = true) (h2 : gcOk c2 g2 = true) (h3 : gcOk c3 g3 = true)
@@ -2066,6 +2138,17 @@ theorem cst_parse_inv : (c : Cst) → c.wf = true → ∀ (e : Expr), c.parse = 
       cases gapHasEmptyLine g3
       · simpa [splitInline] using key [] (appendGapTrivia [] g1) lineFree_nil
       · simpa [splitInline] using key [.emptyLine] (appendGapTrivia [] g1) (lineFree_single_layout rfl)
+  | .sel e c1 g1 gd attrs, hwf, ex, hp => by
+    simp only [Cst.wf, Bool.and_eq_true, List.isEmpty_iff] at hwf
+    obtain ⟨⟨⟨⟨⟨hew, hc1⟩, _⟩, _⟩, _⟩, _⟩ := hwf
+    subst hc1
+    obtain ⟨ee, hpe, _, _, hea, _⟩ := cst_parse_spec false e hew (fun h => by cases h)
+    have hie := cst_parse_inv e hew ee hpe
+    simp only [Cst.parse, hpe] at hp
+    injection hp with hp; subst hp
+    refine ⟨⟨hie.1, hie.2.1, hea⟩, rfl, fun hnl => ?_⟩
+    simp only [Cst.noLineC, Bool.and_eq_true] at hnl
+    exact ⟨hie.2.2 hnl.1, lineFree_nil, lineFree_nil⟩
 theorem items_parse_inv : (its : Items) → ∀ (m : Mode) (cg : Text) (st st' : SeqSt), its.wf m cg = true →
     its.parseSeq m st = .ok st' → allMlSafe st.items →
     allMlSafe st'.items ∧ (its.noLineI = true → allLineFree st.items → lineFree st.before →
